@@ -26,16 +26,67 @@ type Variant struct {
 	IgnInc   bool          `json:"ign_inc"`
 	IgnMiss  bool          `json:"ign_miss"`
 	Withhold int           `json:"withhold"`  // child whose history is withheld from the datasource, -1 none
-	Filter   int           `json:"filter"`    // -1: no ChildFilter; -2: filter rejecting every child; x>=0: filter accepting only child x
+	Filter   int           `json:"filter"`    // -1: no ChildFilter; -2: filter rejecting every child; -3: filter accepting every child; x>=0: filter accepting only child x
 	KeepRefs bool          `json:"keep_refs"` // deleted parent versions keep the previous child list (unannotated)
 	Reversed bool          `json:"reversed"`  // the datasource returns every history newest version first
 	When     int           `json:"-"`         // at which states the search evaluates the variant (main.go)
+
+	// boundary classes (all optional)
+	Shuffled bool `json:"shuffled,omitempty"` // the datasource returns every history unsorted (even positions ascending, then odd positions descending)
+	Suffix   bool `json:"suffix,omitempty"`   // the parent versions handed over start at the first deleted parent version after the first one (at the second version when none is deleted)
+	Twice    bool `json:"twice,omitempty"`    // the library is called twice on the same parents and datasource; the second result is judged
+	Retry    bool `json:"retry,omitempty"`    // a first call on the same parents fails (history of the first child withheld), then the judged call follows
+	Explicit bool `json:"explicit,omitempty"` // the documented defaults are passed explicitly: Threshold(30 min), IgnoreInconsistency(false), IgnoreMissingChildren(false), ChildFilter(nil)
+	Polygon  bool `json:"polygon,omitempty"`  // relation parents are tagged type=multipolygon and their members carry the roles outer / inner
+	Late     int  `json:"late,omitempty"`     // every child history of more than Late versions is handed over without its first Late versions (a history extract that starts later: parents before it reference a child that is "not yet there")
+	Strip    int  `json:"strip,omitempty"`    // which elements come without a commit time (stripXxx); only in spaces whose upload instants are whole seconds
+}
+
+// Commit-time patterns of Variant.Strip: the listed elements have Committed ==
+// nil, the library has to fall back on their timestamp (the same instant here).
+const (
+	stripNone        = iota
+	stripParents     // every parent version
+	stripChildren    // every child version
+	stripEven        // every version at an even position of its history (0, 2, ...), parents and children
+	stripOdd         // every version at an odd position
+	stripBeforeStart // every version committed before osm.CommitInfoStart (what real history files look like)
+)
+
+func stripped(mode, pos int, commit time.Time, parent bool) bool {
+	switch mode {
+	case stripParents:
+		return parent
+	case stripChildren:
+		return !parent
+	case stripEven:
+		return pos%2 == 0
+	case stripOdd:
+		return pos%2 == 1
+	case stripBeforeStart:
+		return commit.Before(osm.CommitInfoStart)
+	}
+	return false
 }
 
 // class is the coarse call class used in violation keys (a defect shows under
 // one key per class, not one per variant).
 func (v Variant) class() string {
 	switch {
+	case v.Strip != stripNone:
+		return "partial-commit-times"
+	case v.Suffix:
+		return "parent-suffix"
+	case v.Late > 0:
+		return "late-child-history"
+	case v.Twice || v.Retry:
+		return "second-call"
+	case v.Polygon:
+		return "multipolygon-parent"
+	case v.Shuffled:
+		return "unsorted-histories"
+	case v.Explicit:
+		return "explicit-defaults"
 	case v.Filter != -1:
 		return "child-filter"
 	case v.Withhold >= 0 && v.IgnMiss:
@@ -174,7 +225,9 @@ type truth struct {
 	sp      *Space
 	w       *histsim.World
 	v       Variant
-	pv      []histsim.Version // parent versions
+	pv      []histsim.Version // parent versions handed to the library
+	all     []histsim.Version // all parent versions of the world; pv = all[from:]
+	from    int
 	slots   [][]slot
 	incs    []inconsistency
 	nontriv bool
@@ -191,6 +244,18 @@ type stats struct {
 	unannotatedMissing, unannotatedInconsistent int64 // clause (e): references confirmed left unannotated under an ignore option
 	filteredUntouched                           int64 // ChildFilter: pre-annotated references confirmed untouched
 	windowUpdates                               int64 // updates accepted inside the pre-commit grouping window
+	notYetThere                                 int64 // references confirmed unannotated because the child's handed-over history starts later
+	zeroCoordinate                              int64 // node annotations and updates compared whose latitude or longitude is exactly 0
+	reverseFlags                                int64 // updates seen with the Reverse flag set (the flag is not judged)
+}
+
+// versions is the history of child c as handed to the library (oldest first).
+func (t *truth) versions(c osm.FeatureID) []histsim.Version {
+	vers := t.w.Versions(c)
+	if d := t.v.Late; d > 0 && len(vers) > d {
+		return vers[d:]
+	}
+	return vers
 }
 
 func (t *truth) hasDefinite() bool {
@@ -211,6 +276,8 @@ func libTime(w *histsim.World, v *histsim.Version) time.Time {
 }
 
 // expectedRefs is the child list of parent version i as handed to the library.
+// (pv is the complete parent history and i an index into it: a deleted version
+// that opens a handed-over suffix still keeps the list of its predecessor.)
 func expectedRefs(pv []histsim.Version, i int, keep bool) []osm.FeatureID {
 	if pv[i].Visible || !keep {
 		return pv[i].Refs
@@ -230,21 +297,31 @@ func computeTruth(t *truth, sp *Space, w *histsim.World, v Variant, preAnnotated
 	if t == nil {
 		t = &truth{}
 	}
-	*t = truth{sp: sp, w: w, v: v, pv: w.Versions(f.Parent), slots: t.slots[:0], incs: t.incs[:0], arena: t.arena[:0], stats: t.stats}
+	*t = truth{sp: sp, w: w, v: v, all: w.Versions(f.Parent), slots: t.slots[:0], incs: t.incs[:0], arena: t.arena[:0], stats: t.stats}
 	if t.stats == nil {
 		t.stats = &stats{}
 	}
+	if v.Suffix && len(t.all) > 1 {
+		t.from = 1
+		for i := 1; i < len(t.all); i++ {
+			if !t.all[i].Visible {
+				t.from = i
+				break
+			}
+		}
+	}
+	t.pv = t.all[t.from:]
 	var seenCur [8]int
 	total := 0
 	for i := range t.pv {
-		total += len(expectedRefs(t.pv, i, v.KeepRefs))
+		total += len(expectedRefs(t.all, t.from+i, v.KeepRefs))
 	}
 	if cap(t.arena) < total {
 		t.arena = make([]slot, 0, 2*total)
 	}
 	for i := range t.pv {
 		p := &t.pv[i]
-		refs := expectedRefs(t.pv, i, v.KeepRefs)
+		refs := expectedRefs(t.all, t.from+i, v.KeepRefs)
 		t.arena = t.arena[:len(t.arena)+len(refs)]
 		t.slots = append(t.slots, t.arena[len(t.arena)-len(refs):])
 		for j, c := range refs {
@@ -260,7 +337,7 @@ func computeTruth(t *truth, sp *Space, w *histsim.World, v Variant, preAnnotated
 			if pre {
 				s.pre = sentinel
 			}
-			s.active = !pre || v.Filter == -1 || v.Filter == s.cx
+			s.active = !pre || v.Filter == -1 || v.Filter == -3 || v.Filter == s.cx
 			s.missing = v.Withhold == s.cx
 			if s.active && s.missing && !v.IgnMiss {
 				// (the library asks for the history before it looks at the parent's visibility;
@@ -270,7 +347,7 @@ func computeTruth(t *truth, sp *Space, w *histsim.World, v Variant, preAnnotated
 			if !p.Visible || !s.active || s.missing {
 				continue
 			}
-			vers := w.Versions(c)
+			vers := t.versions(c)
 			// current at the parent's commit
 			s.lo = 0
 			for k := len(vers) - 1; k >= 0; k-- {
@@ -299,8 +376,10 @@ func computeTruth(t *truth, sp *Space, w *histsim.World, v Variant, preAnnotated
 				// statement is exact: every version committed before the next parent
 				// version is listed, whatever the threshold. Without them the last
 				// threshold before the next parent version is the heuristic's to group.
+				// An element without a commit time (Variant.Strip) is under the timestamp
+				// rule even after 2012: the window is granted whenever one is in play.
 				limit := nx.Commit
-				if w.Regime() == histsim.PreCommit {
+				if w.Regime() == histsim.PreCommit || v.Strip != stripNone {
 					limit = nx.Commit.Add(-v.Thr)
 				}
 				s.mid, s.hi = s.lo, s.lo
@@ -466,11 +545,17 @@ func (t *truth) compare(p *parents, times []time.Time, out []finding) []finding 
 				}
 			case s.cur == nil || !s.cur.Visible:
 				t.stats.unannotatedInconsistent++
+				if s.cur == nil {
+					t.stats.notYetThere++
+				}
 				if got != s.pre {
 					add("inconsistent-child", "annotated/"+t.curShape(i, s), fmt.Sprintf("parent v%d ref %d (%v): no visible version at its commit but annotated %+v", pvi.Version, j, s.child, got))
 				}
 			default:
 				t.stats.refs++
+				if node && (s.cur.Lat == 0 || s.cur.Lon == 0) {
+					t.stats.zeroCoordinate++
+				}
 				if want := annOf(s.cur); !annEqual(got, want, node) {
 					shape := "wrong-version"
 					if got.Ver == want.Ver {
@@ -530,7 +615,7 @@ func (t *truth) compare(p *parents, times []time.Time, out []finding) []finding 
 				}
 				continue
 			}
-			vers := t.w.Versions(s.child)
+			vers := t.versions(s.child)
 			node := s.child.Type() == osm.TypeNode
 			k := s.lo
 			bad := false
@@ -549,6 +634,12 @@ func (t *truth) compare(p *parents, times []time.Time, out []finding) []finding 
 				}
 				want := &vers[k]
 				t.stats.updates++
+				if u.Reverse {
+					t.stats.reverseFlags++
+				}
+				if node && (want.Lat == 0 || want.Lon == 0) {
+					t.stats.zeroCoordinate++
+				}
 				if k >= s.mid {
 					t.stats.windowUpdates++
 				}
@@ -615,6 +706,9 @@ func (t *truth) compare(p *parents, times []time.Time, out []finding) []finding 
 				cur, ok := t.w.CurrentAt(s.child, q)
 				if !ok || !cur.Visible {
 					continue // nothing is promised about a child that is not there
+				}
+				if t.v.Late > 0 && cur.Version < t.versions(s.child)[0].Version {
+					continue // ... or whose current version was not handed over
 				}
 				t.stats.travelRefs++
 				if got, want := buf[j], annOf(cur); !annEqual(got, want, s.child.Type() == osm.TypeNode) {
